@@ -307,7 +307,12 @@ def run(ctx):
             ctx.mon("tag-sweep", 0)
         # ---- several conditional requests in flight on one app object: every client is judged on its own validators (vf/inflight.py)
         for g in range(ctx.scale(30, 1500)):
-            in_flight(ctx, vfs, targets, rng.randrange(10 ** 9))
+            if g % 6 == 0:
+                from vf import inflight
+                with inflight.preemptor() as pre:
+                    in_flight(ctx, vfs, targets, rng.randrange(10 ** 9), pre)
+            else:
+                in_flight(ctx, vfs, targets, rng.randrange(10 ** 9))
             ctx.case(("in-flight", g, ctx.shard))
         ctx.monitors["virtual-stat-calls"] = vfs.calls
     finally:
@@ -391,7 +396,7 @@ def changed_while_in_flight(ctx, vfs, t, busy):
         ctx.violation("200-with-old-or-wrong-content", case, f"{st2} {body2[:30]!r}")
 
 
-def in_flight(ctx, vfs, targets, seed):
+def in_flight(ctx, vfs, targets, seed, pre=None):
     import random
 
     from vf import inflight
@@ -419,7 +424,7 @@ def in_flight(ctx, vfs, targets, seed):
               "other-files-lm": [("If-Modified-Since", "Thu, 01 Jan 1970 00:00:10 GMT")]}[form]
         reqs.append(drivers.Req(path=t[2].encode(), headers=hd, server=("t", 80)))
         spec.append((t[2], form))
-    inflight.check_group(ctx, iface, app, reqs, "conditional", {"in_flight_seed": seed, "target": spec})
+    inflight.check_group(ctx, iface, app, reqs, "conditional", {"in_flight_seed": seed, "target": spec}, pre=pre)
 
 
 def replay(ctx, case):
@@ -449,7 +454,12 @@ def replay(ctx, case):
     if "in_flight_seed" in case:
         vfs = VFS()
         try:
-            in_flight(ctx, vfs, setup(ctx), case["in_flight_seed"])
+            if case.get("preempted"):
+                from vf import inflight
+                with inflight.preemptor() as pre:
+                    in_flight(ctx, vfs, setup(ctx), case["in_flight_seed"], pre)
+            else:
+                in_flight(ctx, vfs, setup(ctx), case["in_flight_seed"])
             ctx.case(1)
         finally:
             vfs.close()
